@@ -24,7 +24,7 @@ structure DState where
 
 def DState.init : DState :=
   { cfg := { legacy := false, zeroWriteFix := true, dropReopenedWindow := false, removeImplicitClasses := false,
-             legacyPurgeOnUpdate := false, legacyDedupDeclared := false, window := 8192 },
+             legacyPurgeOnUpdate := false, legacyDedupDeclared := true, window := 8192 },
     nodes := [], roots := [] }
 
 def getNode (s : DState) (id : String) : Option Node := (s.nodes.find? (·.1 == id)).map (·.2)
